@@ -222,7 +222,7 @@ func main() {
 				}
 				do(argv...)
 				if r.Intn(25) == 0 {
-					do("SELECT", strconv.Itoa(r.Intn(4)))
+					do("SELECT", strconv.Itoa([]int{0, 1, 2, 3, 15, 14, 7, r.Intn(16)}[r.Intn(8)]))
 				}
 				if phase > 0 && r.Intn(60) == 0 {
 					do([]string{"FLUSHDB", "FLUSHALL"}[r.Intn(2)])
@@ -354,6 +354,45 @@ func main() {
 				}
 			}
 			stats["single_command_restarts"]++
+		}
+		// every database index: a saved key, then a flush with nothing written afterwards, a save and a
+		// restart — the flushed content must not come back in any of the sixteen databases
+		for _, flush := range []string{"FLUSHALL", "FLUSHDB"} {
+			if failures > 0 {
+				break
+			}
+			for db := 0; db < 16; db++ {
+				do("SELECT", strconv.Itoa(db))
+				do("SET", fmt.Sprintf("fk%d", db), "v")
+				do("RPUSH", fmt.Sprintf("fl%d", db), "a", "b")
+			}
+			if err := vs.Save(); err != nil {
+				fail(cs, trace, "save failed: "+err.Error())
+				break
+			}
+			trace = append(trace, "save")
+			if flush == "FLUSHALL" {
+				do("SELECT", strconv.Itoa(r.Intn(16)))
+				do("FLUSHALL")
+			} else {
+				for db := 0; db < 16; db++ {
+					do("SELECT", strconv.Itoa(db))
+					do("FLUSHDB")
+				}
+			}
+			if r.Intn(2) == 0 {
+				vs.Save()
+				trace = append(trace, "save")
+			}
+			trace = append(trace, "restart")
+			restored := observe(redisemu.VerifNewStore(base))
+			for db := 0; db < 16; db++ {
+				if len(restored[db]) != 0 {
+					fail(cs, trace, fmt.Sprintf("after %s and a restart database %d holds %v again", flush, db, restored[db]))
+					break
+				}
+			}
+			stats["flush_restart_checks"]++
 		}
 		cl.Close()
 		os.RemoveAll(dir)
